@@ -24,7 +24,7 @@ import numpy as np
 import core
 import gen
 
-PROOF_MODULES = ["UnytProofs.C01"]
+PROOF_MODULES = ["UnytProofs.C01", "UnytProofs.C01History", "UnytProofs.C01State"]
 
 ENV_SRC = ("import numpy as np, unyt, operator\n"
            "from unyt import unyt_array, unyt_quantity, Unit\n")
@@ -294,6 +294,17 @@ def route(E, uname, a, b):
     return MIRROR[uname], True, wrap
 
 
+# the calls made before the call under test in a history case: (ufunc, first operand, second operand) over the
+# operands a, b of the case and a bare zero — every one of them is allowed to raise
+HISTORY_CALLS = [(f, x, y) for f in ("less", "greater_equal", "equal", "not_equal", "multiply", "divide", "logical_and")
+                 for x, y in (("a", "b"), ("b", "a"))] + [("add", "a", "0"), ("add", "0", "b"), ("less", "a", "0"), ("maximum", "0", "b")]
+HISTORY_SRC = ("for _f, _x, _y in " + repr(HISTORY_CALLS) + ":\n"
+               "    try:\n"
+               "        getattr(np, _f)(*[a if _v == 'a' else (b if _v == 'b' else 0.0) for _v in (_x, _y)])\n"
+               "    except Exception:\n"
+               "        pass\n")
+
+
 class Case:
     __slots__ = ("key", "src", "setup", "ufunc", "method", "ops", "out", "kw", "wrap", "form", "kinds", "fam",
                  "shape", "real", "snaps", "model_line", "initial", "meta")
@@ -327,18 +338,38 @@ def py_call_src(form, uname, has_out, initial=None):
     raise KeyError(form)
 
 
-def run_real(E, setup_src, call_src):
-    """execute on the real library: (status, exc name or result, {name: (before, after)})"""
+def rule_caches(E):
+    """the memoised unit rules of unyt.array (functions carrying `cache_clear` / `cache_info`)"""
+    import sys
+    mod = sys.modules[E.unyt_array.__module__]
+    return {n: f for n, f in vars(mod).items() if callable(getattr(f, "cache_clear", None)) and callable(getattr(f, "cache_info", None))}
+
+
+def run_real(E, setup_src, call_src, history_src="", probe=None):
+    """execute on the real library: (status, exc name or result, {name: (before, after)}); `history_src` = the
+    calls made before the call under test (they may not change the operands either)"""
     ns = dict(E.ns)
+    pf = None
+    if history_src:
+        # a history case starts from empty rule memos, like the model's `runHistory` from the empty state
+        caches = rule_caches(E)
+        for f in caches.values():
+            f.cache_clear()
+        pf = caches.get(probe)
     exec(setup_src, ns)
     objs = {n: ns[n] for n in ("a", "b", "o") if n in ns}
     before = {n: snap(E, v) for n, v in objs.items()}
+    if history_src:
+        with np.errstate(all="ignore"):
+            exec(history_src, ns)
+    n0 = pf.cache_info().currsize if pf is not None else None
     try:
         with np.errstate(all="ignore"):
             res = eval(call_src, ns)
         st = ("ok", res)
     except Exception as e:  # noqa: BLE001
         st = ("err", e)
+    E.last_rule_delta = None if pf is None else pf.cache_info().currsize - n0
     after = {n: snap(E, v) for n, v in objs.items()}
     return st, objs, before, after
 
@@ -560,8 +591,63 @@ class Ufuncs:
                 self.add_binary(n, "call", "same", "diffdim", fams[0], ("v", "v"))
             elif n not in self.registry and nin == 1:
                 self.add_unary(n, "call1", "same", fams[0], "v")
+        self.enumerate_histories()
         if thorough:
             self.enumerate_dimension_pairs()
+
+    def enumerate_histories(self):
+        """programs: the call is made AFTER other calls on the same operands (same ordered pairs of units) in
+        the same interpreter — the documented exceptions (ordering comparisons, == / !=, zero partners) and
+        unchecked rules (multiply, divide, logical_*), in both operand orders.  The model evaluates the whole
+        history (`c01.history`: `History.runHistory` under the regenerated memo configuration); the direct
+        oracle judges the last call exactly like a call in a fresh interpreter."""
+        fams = list(FAMILIES_QUICK)
+        thorough = self.tier == "thorough"
+        pairs = [("same", "diffdim"), ("diffdim", "same"), ("same", "dimless"), ("dimless", "same"), ("same", "percent"),
+                 ("percent", "same"), ("same", "scalar"), ("scalar", "same"), ("same", "barearr"), ("barearr", "same"),
+                 ("same", "listq_other"), ("same", "partzero_arr"), ("same", "samedim"), ("samedim", "same"),
+                 ("diffdim", "percent"), ("dimless", "diffdim")]
+        unames = [n for n in sorted(self.ref_canon) if n in self.registry and self.X["registry_rows_d"][n]["ufunc"]
+                  and self.X["registry_rows_d"][n]["nin"] == 2]
+        counter = 0
+        for uname in unames:
+            forms = ["call", "out"]
+            if uname in OPS:
+                forms.append("operator")
+                if OPS[uname][1]:
+                    forms.append("inplace")
+            for form in forms:
+                for ka, kb in pairs:
+                    if form == "inplace" and ka not in ("same", "samedim", "diffdim", "dimless", "percent"):
+                        continue
+                    if thorough or form == "call":
+                        sel = [(f, (counter + f + self.seed) % 3) for f in range(len(fams))]
+                    else:
+                        sel = [((counter + self.seed) % len(fams), (counter // len(fams) + self.seed) % 3)]
+                    counter += 1
+                    for fi, si in sel:
+                        n0 = len(self.cases)
+                        self.add_binary(uname, form, ka, kb, fams[fi], self.shapes_for(si))
+                        for c in self.cases[n0:]:
+                            c["history"] = HISTORY_SRC
+                            c["prefix"] = HISTORY_CALLS
+
+    def history_lines(self, pre):
+        """descriptors of the calls of HISTORY_SRC that reach `__array_ufunc__`, in execution order"""
+        E = self.E
+        out = []
+        for uname, xa, xb in HISTORY_CALLS:
+            x = pre["a"] if xa == "a" else (pre["b"] if xa == "b" else 0.0)
+            y = pre["a"] if xb == "a" else (pre["b"] if xb == "b" else 0.0)
+            if not any(isinstance(v, E.unyt_array) for v in (x, y)):
+                continue
+            try:
+                ksh = ",".join(str(d) for d in np.broadcast(np.asarray(strip(E, x)), np.asarray(strip(E, y))).shape)
+                ke = "-"
+            except Exception:  # noqa: BLE001
+                ksh, ke = "", "ValueError"
+            out.append([uname, "__call__", "2"] + operand_wire(E, x) + operand_wire(E, y) + ["-", "N", "-", ke, ksh, "-"])
+        return out
 
     def enumerate_dimension_pairs(self):
         """thorough: every ordered pair of distinct dimensions present in the registry"""
@@ -678,13 +764,19 @@ class Ufuncs:
             c2["ufunc"] = uname
             ke, ksh = probe_kernel(E, c2, self.fresh(c))
             c["kernel_err"], c["kernel_shape"] = ke or "-", ksh
-            lines.append("\t".join(c["line_head"] + [c["kernel_err"], ksh, wrap]))
-            st, objs, before, after = run_real(E, c["setup"], c["call"])
+            c["hist_head"] = []
+            if c.get("prefix"):
+                for hl in self.history_lines(pre):
+                    c["hist_head"] += hl + ["##"]
+            lines.append(self.model_line(c))
+            st, objs, before, after = run_real(E, c["setup"], c["call"], c.get("history", ""), self.registry.get(uname))
+            c["rule_delta"] = E.last_rule_delta if c.get("history") else None
             c["st"], c["objs"], c["before"], c["after"] = st, objs, before, after
         replies = self.ask(lines)
         # second pass: cases in which NumPy itself refuses the stripped call
         redo = []
         for c, rep in zip(cases, replies):
+            rep = self.split_state(c, rep)
             c["rep"] = rep
             if rep[0] == "ok" and rep[5] != "none":
                 # the second operand is cast to a float dtype before the kernel runs: ask NumPy again
@@ -696,12 +788,42 @@ class Ufuncs:
                     c["kernel_err"], c["kernel_shape"] = ke or "-", ksh
                     redo.append(c)
         if redo:
-            reps2 = self.ask(["\t".join(c["line_head"] + [c["kernel_err"], c["kernel_shape"], c["wrap"]]) for c in redo])
+            reps2 = self.ask([self.model_line(c) for c in redo])
             for c, rep in zip(redo, reps2):
-                c["rep"] = rep
+                c["rep"] = self.split_state(c, rep)
         for c in cases:
             self.compare(c)
             self.oracle(c)
+
+    def split_state(self, c, rep):
+        """`c01.history` appends `rs=<n0>,<n1>`: entries of the model's unit-rule table before / after the last call"""
+        c["model_rs"] = None
+        if rep and rep[-1].startswith("rs="):
+            n0, n1 = rep[-1][3:].split(",")
+            c["model_rs"] = (int(n0), int(n1))
+            rep = rep[:-1]
+        return rep
+
+    def compare_state(self, c, where):
+        """the model's unit-rule table against the real `lru_cache` of the rule function of the call under test:
+        did the call add an entry (a miss whose result was stored) or not (a hit, a raise, or the rule never reached).
+        `_difference_units` calls the memoised `_preserve_units` itself (entries the model does not count): its own
+        cache is the one looked at."""
+        if c.get("rule_delta") is None or c.get("model_rs") is None:
+            return
+        self.chk.count("history:rule-memo-compared")
+        md = c["model_rs"][1] - c["model_rs"][0]
+        if md != c["rule_delta"]:
+            self.chk.disagree("c01.history.state", f"{where}: the call added {c['rule_delta']} entries to the rule memo of "
+                              f"{self.registry.get(c['dispatch_ufunc'])}, the model's table grew by {md} (sizes {c['model_rs']})")
+        else:
+            self.chk.count(f"history:rule-memo-{'miss' if md else 'hit-or-unreached'}")
+
+    def model_line(self, c):
+        tail = c["line_head"][1:] + [c["kernel_err"], c["kernel_shape"], c["wrap"]]
+        if c.get("prefix"):
+            return "\t".join(["c01.history"] + c["hist_head"] + tail)
+        return "\t".join(["c01.dispatch"] + tail)
 
     def fresh(self, c):
         ns = dict(self.E.ns)
@@ -726,15 +848,20 @@ class Ufuncs:
 
     # -- comparison with the model -------------------------------------------------------
     def replay(self, c, assertion):
-        return {"python": ENV_SRC + c["setup"] + assertion, "call": c["call"], "family": list(c["fam"]),
-                "kinds": [c["ka"], c["kb"]], "model": c.get("rep")}
+        r = {"python": ENV_SRC + c["setup"] + c.get("history", "") + assertion, "call": c["call"], "family": list(c["fam"]),
+             "kinds": [c["ka"], c["kb"]], "model": c.get("rep")}
+        if c.get("history"):
+            r["history"] = "the call is made after " + ", ".join(f"np.{f}({x}, {y})" for f, x, y in HISTORY_CALLS) + " in the same interpreter"
+        return r
 
     def compare(self, c):
         chk, E = self.chk, self.E
         rep = c["rep"]
         st = c["st"]
-        tag = f"{c['ufunc']}|{c['form']}|{c['ka']}|{c['kb']}"
-        chk.case((c["ufunc"], c["form"], c["ka"], c["kb"], c["fam"], c["shp"], c.get("with_out", False), c["initial"]),
+        tag = f"{c['ufunc']}|{c['form']}|{c['ka']}|{c['kb']}" + ("|after-history" if c.get("history") else "")
+        if c.get("history"):
+            chk.count("history:cases")
+        chk.case((c["ufunc"], c["form"], c["ka"], c["kb"], c["fam"], c["shp"], c.get("with_out", False), c["initial"], bool(c.get("history"))),
                  {"call": c["call"], "setup": c["setup"], "model": rep[:3]} if len(chk.samples) < 8 and c["kb"] == "diffdim" else None)
         chk.count("form:" + c["form"])
         if not c["reaches_unyt"]:
@@ -745,6 +872,8 @@ class Ufuncs:
             return
         chk.count("model:" + (rep[0] if rep[0] == "ok" else "err:" + rep[1]))
         where = f"{tag} fam={c['fam']} shp={c['shp']} call={c['call']!r} setup={c['setup']!r}"
+        if c.get("history"):
+            self.compare_state(c, where)
         if rep[0] == "err":
             if st[0] != "err":
                 chk.disagree("c01.dispatch", f"{where}: model raises {rep[1]}, implementation returned {str(st[1])[:60]!r}")
@@ -965,7 +1094,7 @@ class Ufuncs:
         for x in (a, b):
             if isinstance(x, (list, tuple)) and any(hasattr(o, "units") for o in x) and all_zero([float(o) for o in x]):
                 return "ufunc|zero-quantity-list"
-        return f"ufunc|{uname}|{form}"
+        return f"ufunc|{uname}|{form}" + ("|after-history" if c.get("history") else "")
 
 
 # ----------------------------------------------------------------------------------------
@@ -1451,6 +1580,44 @@ def crosscheck_tables(chk, E, X, XH):
             chk.count("rescale-tuple-lacks-a-checked-rule")
     except Exception as e:  # noqa: BLE001
         chk.disagree("c01.dump.writes", repr(e))
+    # the process-wide state of the dispatcher (memo rows) regenerated from the source; and, independently of the
+    # ast pass, the live module: containers of unyt.array whose contents change while ufuncs are being dispatched
+    try:
+        XS = json.load(open(os.path.join(core.BUILD, "extract_c01_state.json"), encoding="utf-8"))
+        rep = M.ask(["c01.dump.state"])[0]
+        want = [";".join(f"{n}:{b}:{','.join(fs)}:{mx}" for n, b, fs, mx in XS["memos"]), ",".join(XS["unmodelled"])]
+        chk.case(("dump.state",))
+        if rep[1:3] != want:
+            chk.disagree("c01.dump.state", f"driver {rep[1:3]} differs from the translator's {want}")
+        if rep[3:] != ["1"]:
+            chk.disagree("c01.dump.state", f"the dispatcher keeps process-wide state whose key does not determine what it stands for: {want}")
+        import copy
+        import types
+
+        def census():
+            out = {}
+            for n, v in vars(ua).items():
+                if isinstance(v, (dict, list, set)) and not n.startswith("__"):
+                    try:
+                        out[n] = (len(v), repr(sorted(map(repr, v)))[:20000])
+                    except Exception:  # noqa: BLE001
+                        out[n] = (len(v), "")
+            return out
+        before = census()
+        x, y, z = E.unyt_array([1.0, 2.0], "km"), E.unyt_quantity(3.0, "hr"), E.unyt_quantity(2.0, "dimensionless")
+        for f in (np.less, np.equal, np.multiply, np.add, np.maximum, np.arctan2):
+            for p_, q_ in ((x, z), (z, x), (x, y), (x, x), (x, 0.0)):
+                try:
+                    f(p_, q_)
+                except Exception:  # noqa: BLE001
+                    pass
+        after = census()
+        grew = sorted(n for n in after if after[n] != before.get(n))
+        chk.case(("live-state-census", len(after)))
+        if set(grew) - {n for n, _b, _f, _m in XS["memos"]} - set(XS["unmodelled"]):
+            chk.disagree("c01.dump.state", f"module-level containers of unyt.array changed while ufuncs were dispatched but the ast pass did not report them: {grew}")
+    except Exception as e:  # noqa: BLE001
+        chk.disagree("c01.dump.state", repr(e))
     live_handled = sorted((("linalg." if (f.__module__ or "").startswith("numpy.linalg") else "fft." if (f.__module__ or "").startswith("numpy.fft") else "") + f.__name__) for f in af._HANDLED_FUNCTIONS)
     if live_handled != handled:
         chk.disagree("c01.handled", "handled-function list differs from the live _HANDLED_FUNCTIONS")
@@ -1589,12 +1756,16 @@ def run(tier, seed):
             "reduce(initial=), reduceat} x ordered pairs of 24 operand kinds (the property's nine and variants incl. partly-zero bare arrays, lists and lists of quantities) x 6 dimension "
             "families x 5 shape combinations (quick: one family/shape per combination, all families for the "
             "commensurability-requiring ufuncs on the nine main kinds; thorough: all, plus every ordered pair of distinct "
-            "registry dimensions); array functions with >= 2 value operands x 10 operand kinds; __setitem__/.to() over unit "
+            "registry dimensions); histories: every binary commensurability-requiring ufunc x {call, out=, operator, in-place} x 16 "
+            "ordered kind pairs x families, the call made after 18 earlier calls (comparisons, ==/!=, multiply, divide, logical_and, "
+            "zero partners; both operand orders) on the same operands in one interpreter, model = runHistory under the regenerated "
+            "memo configuration, rule-memo growth compared with lru_cache cache_info; array functions with >= 2 value operands x 10 operand kinds; __setitem__/.to() over unit "
             "pairs; helper functions over object trees. distinct = distinct (operation, form, kinds, family, shape); every "
             "case executes the real library")
     chk.assumptions = [
         "NumPy's kernels and Python's operator dispatch are outside the model: the harness supplies whether NumPy refuses the stripped call and which ufunc an operator form reaches",
         "comparisons (ordering, ==, !=, isclose/allclose) with a dimensionless operand are treated as the documented 'dimensionless operand' exception",
         "electromagnetic CGS<->SI pairs are commensurable for .to()/__setitem__ (documented conversion; C03 covers it)",
+        "history theorems assume exact dictionary-key equality (KeyEqExact: one registry, Unit.__eq__/__hash__ identify only equal units); which process-wide state exists is read from unyt/array.py by ast (state kept in other modules is exercised by the history cases only)",
     ]
     return chk.finish(rule)
